@@ -32,7 +32,7 @@ func NewSerialClient(serialPort io.ReadWriteCloser, opts ...SerialClientOptionFu
 
 	client := &SerialClient{
 		readTimeout:         defaultReadTimeout,
-		asProtocolErrorFunc: packet.AsRTUErrorPacket,
+		asProtocolErrorFunc: asRTUErrorPacketWithCRC,
 		parseResponseFunc:   packet.ParseRTUResponseWithCRC,
 		serialPort:          serialPort,
 		hooks:               nil,
